@@ -219,10 +219,98 @@ func heldMaps(which string) func(r *engine.Rec) {
 				r.Violation("a Map against a Catalog with the same associations, both held as Sequential: "+kind, fmt.Sprintf("%+v: %s", c, detail), c)
 			}
 		}
+		heldSequences(which, r)
 		n := int64(len(holders) * len(fam) * len(fam))
 		r.States += n
 		r.Distinct += n
 		r.Transitions += r.Evals
 		r.Sample(heldCase{Holder: "item of List[MapLike]", A: fam[2].name, B: fam[2].name})
 	}
+}
+
+// heldSequences: the same for Lists, Sets and Stacks reached through a typed
+// interface: ranked lexicographically by their items (a proper prefix first),
+// equal exactly when their items are.
+func heldSequences(which string, r *engine.Rec) {
+	N := common.N
+	type LL = col.ListLike[int]
+	type SL = col.SetLike[int]
+	type SQ = col.Sequential[int]
+	contents := [][]int{{}, {1}, {1, 2}, {1, 3}, {2}, {1, 2, 3}, {0, 5}}
+	lex := func(a, b []int) age.Rank {
+		for i := 0; i < len(a) && i < len(b); i++ {
+			if a[i] != b[i] {
+				if a[i] < b[i] {
+					return age.LesserRank
+				}
+				return age.GreaterRank
+			}
+		}
+		switch {
+		case len(a) < len(b):
+			return age.LesserRank
+		case len(a) > len(b):
+			return age.GreaterRank
+		}
+		return age.EqualRank
+	}
+	mkL := func(v []int) LL { return col.List[int](N()).MakeFromArray(append([]int(nil), v...)) }
+	mkS := func(v []int) SL {
+		rev := append([]int(nil), v...)
+		for i, j := 0, len(rev)-1; i < j; i, j = i+1, j-1 {
+			rev[i], rev[j] = rev[j], rev[i]
+		}
+		return col.Set[int](N()).MakeFromArray(rev)
+	}
+	holders := map[string]func(v []int) any{
+		"item of []ListLike":            func(v []int) any { return []LL{mkL(v)} },
+		"item of List[ListLike]":        func(v []int) any { return col.List[LL](N()).MakeFromArray([]LL{mkL(v)}) },
+		"item of List[SetLike]":         func(v []int) any { return col.List[SL](N()).MakeFromArray([]SL{mkS(v)}) },
+		"item of []Sequential (a List)": func(v []int) any { return []SQ{mkL(v)} },
+		"item of []Sequential (a Set)":  func(v []int) any { return []SQ{mkS(v)} },
+		"value of map[string]SetLike":   func(v []int) any { return map[string]SL{"k": mkS(v)} },
+		"value of Catalog[string,ListLike]": func(v []int) any {
+			c := col.Catalog[string, LL](N()).Make()
+			c.SetValue("k", mkL(v))
+			return c
+		},
+		"second item of Stack[Sequential]": func(v []int) any {
+			return col.Stack[SQ](N()).MakeFromArray([]SQ{mkL([]int{9}), mkS(v)})
+		},
+	}
+	coll := age.Collator[any]().Make()
+	n := 0
+	for hn, hold := range holders {
+		for ai, a := range contents {
+			for bi, b := range contents {
+				c := heldCase{Holder: hn, A: fmt.Sprint(a), B: fmt.Sprint(b)}
+				if !r.Wanted(c) {
+					continue
+				}
+				n++
+				_, _ = ai, bi
+				want := lex(a, b)
+				x, y := hold(a), hold(b)
+				var rk, back age.Rank
+				var eq bool
+				o := rt.Protect(fuel, func() {
+					rk, back, eq = coll.RankValues(x, y), coll.RankValues(y, x), coll.CompareValues(x, y)
+				})
+				r.Evals += 3
+				mirror := map[age.Rank]age.Rank{age.LesserRank: age.GreaterRank, age.GreaterRank: age.LesserRank, age.EqualRank: age.EqualRank}
+				switch {
+				case o.Panicked || o.Fuel:
+					r.Violation("ranking or comparing a collection held through a typed interface fails", fmt.Sprintf("%+v: %s", c, o.Value), c)
+				case which == "C07" && back != mirror[rk]:
+					r.Violation("RankValues of collections held through a typed interface is not the mirror image when the arguments are swapped", fmt.Sprintf("%+v: %v and %v", c, rk, back), c)
+				case which == "C07" && rk != want:
+					r.Violation("collections held through a typed interface are not ranked lexicographically by their items", fmt.Sprintf("%+v: got %v want %v", c, rk, want), c)
+				case which == "C08" && eq != (want == age.EqualRank):
+					r.Violation("collections held through a typed interface: CompareValues is not equality of their items", fmt.Sprintf("%+v: %v", c, eq), c)
+				}
+			}
+		}
+	}
+	r.States += int64(n)
+	r.Distinct += int64(n)
 }
